@@ -18,6 +18,10 @@ def specs(tier):
     for w in ("tcp", "tty"):
         out.append(TaskSpec("receive[%s]" % w, "contracts.transport", "task_c12_receive", (w,), replay_kind="transport.prompt", python=PY_FULL, scenario=True))
         out.append(TaskSpec("dispatch[%s]" % w, "contracts.transport", "task_c12_dispatch", (w,)))
+    # the Buffer.process contract the receive loops use modularly (raises only what the callback raises, whatever the parser raises):
+    # re-verified here on the real body, so narrowing an except clause in the scan fails C12 and not only C11
+    out += [TaskSpec("Buffer.process", "contracts.buffer", "task_process", (), replay_kind="buffer.process"),
+            TaskSpec("Buffer._find_message_in_buffer", "contracts.buffer", "task_find", (), replay_kind="buffer.process")]
     return out + c04.router_specs()
 
 
@@ -37,11 +41,15 @@ def run(tier, seed):
         chk.function(f, "ConnectionHandler.message_from_client")
         chk.function(f, "ConnectionHandler.wait_for_messages")
     c04.router_functions(chk)
+    chk.function("indi/transport/buffer.py", "Buffer.process")
+    chk.function("indi/transport/buffer.py", "Buffer._find_message_in_buffer")
     chk.trusted_base += common.ENCODING + [
         "float()/int()/base64.b64decode/re.match are external: each either raises its documented exception class (ValueError, TypeError, binascii.Error) or returns (unknown predicates)",
         "event handlers (Write/Change/Read) are user code: assumed not to raise here (an error inside a handler is C18's fault kind, not a hostile message)",
         "Vector.to_set_message / to_def_message are abstracted at the serialisation point (their own exception freedom is an obligation of C07)",
-        "Buffer.process is used through its C11 contract in the receive loops (raises only what the callback raises; one generic delivery per call stands for all)",
+        "Buffer.process is used through its C11 contract in the receive loops (raises only what the callback raises; one generic delivery per call stands for all); "
+        "the exception-freedom part of that contract (process and the scan, with the parser raising ANY exception) is re-discharged here on the real bodies",
+        "ASSUMED: xml.etree.ElementTree.fromstring raises only ParseError on Latin-1 text; IndiMessage.from_string either raises (any Exception) or returns a message",
         "router side: Router.process_message raises nothing for every conformant message and every sender (obligations shared with C04/C05) provided endpoints do not raise -- which is what the driver obligations here establish for Driver endpoints",
         "floats are treated as mathematical reals (machine rounding not modelled)",
     ]
